@@ -26,7 +26,8 @@ register('C17', 'proof',
          '_get_application_process raise BAD_NAME exactly for unknown names; _get_strategy (run per parameter type: str, '
          'int, bool, float, list, and per enumeration) returns the member designated by name or value and raises '
          'INCORRECT_PARAMETERS otherwise. Per command (start/test_start/stop/restart application and process, '
-         'start_any_process, update_numprocs, enable, conciliate, restart_sequence, restart, shutdown, end_sync): served '
+         'start_any_process, update_numprocs, enable, conciliate, restart_sequence, restart, shutdown, end_sync, and the '
+         'status query get_application_info): served '
          'only in the documented states with valid parameters; BAD_SUPVISORS_STATE iff the state is not allowed; each '
          'rejection code only for its documented cause; every rejected request (BAD_SUPVISORS_STATE, BAD_NAME, '
          'INCORRECT_PARAMETERS, NOT_MANAGED) leaves the ghost effect log empty (no starter / stopper / fsm / rpc_handler / '
@@ -37,8 +38,8 @@ register('C17', 'proof',
                       'structural validity, reachability of a given (state, Master) combination is not established',
                       'disable: only its gate (structural check + proved _check_operating); its body (list comprehension '
                       'around a raising call, filter()) is outside the engine subset',
-                      'status queries get_*: gate only (structural check + proved _check_from_distribution); serial() '
-                      'payload construction is not executed symbolically',
+                      'status queries other than get_application_info: gate only (structural check + proved '
+                      '_check_from_distribution); their list comprehensions around serial() are outside the engine subset',
                       'update_numprocs post-checks (_check_process_insertion, _check_process_deletion, _decrease_numprocs) '
                       'are taken by assumed contracts (raise only RPCError FAILED / STILL_RUNNING)',
                       'the deferred onwait closures are returned as opaque function values; they are not verified '
